@@ -315,4 +315,11 @@ example :
   decide
 example : ((runLowLatency (ll false 0) [ll false 1]).1.filter (·.kind = .playlist)).map (·.skip) = [false, false] := by decide
 
+/-- "re-fetching the playlist between segments": in `runTraditional` the playlist from which the next segment is
+    selected is downloaded AFTER the wait for the queue to drain, and `fillSegmentQueue` runs on it next (the order
+    the model's `tradLoop` assumes when it pairs the k-th selection with the k-th view of the history). Reloading
+    before the wait leaves the request sequence unchanged but selects from a playlist that is a segment duration old. -/
+theorem c11_reload_after_wait :
+    Hls.Gen.Select.tradLoopOrder = ["fillSegmentQueue", "waitUntilSizeIsBelow", "downloadPlaylist"] := by decide
+
 end Hls.Props.C11
